@@ -1,0 +1,33 @@
+"""Verification hooks (inactive unless the environment variable NUMDIFFTOOLS_VERIF=1 is set
+before numdifftools is imported).
+
+``emit(event, **fields)`` appends one record to the in-process list ``EVENTS`` when tracing is
+on and is a no-op otherwise.  ``yield_point(name)`` lets a test harness install a scheduler that
+decides which thread continues at named points; without a scheduler it does nothing.
+"""
+import os
+import threading
+
+ON = os.environ.get('NUMDIFFTOOLS_VERIF') == '1'
+EVENTS = []
+SCHEDULER = None
+_LOCK = threading.Lock()
+
+
+def emit(event, **fields):
+    if ON:
+        fields['ev'] = event
+        fields['thread'] = threading.current_thread().name
+        with _LOCK:
+            fields['seq'] = len(EVENTS)
+            EVENTS.append(fields)
+
+
+def yield_point(name, **fields):
+    if ON and SCHEDULER is not None:
+        SCHEDULER(name, fields)
+
+
+def reset():
+    with _LOCK:
+        del EVENTS[:]
